@@ -157,7 +157,7 @@ def main():
                  "self-validation corpus (mutants/<ID>/*.patch and the seeded/<ID>-* changes recorded as detected by it) on scratch copies of "
                  "/repo's current tree; a corpus change that is not reported is a checker failure (exit 2) when /repo is the commit the corpus "
                  "was validated against, and a printed NOTE on any other tree. Repaired defects are listed as fixed: in known_findings.txt; there "
-                 "are no open known findings. Validation corpora: 126 hand-written mutants, 145 behaviour-preserving refactors (all 19 checks must "
+                 "are no open known findings. Validation corpora: 126 hand-written mutants, 146 behaviour-preserving refactors (all 19 checks must "
                  "stay silent), 197 confirmed breaking changes written by independent sub-agents in seeded/ (DESIGN.md sections 11-12).",
     }
     with open(os.path.join(VERIF, "MANIFEST.json"), "w") as fh:
